@@ -17,7 +17,7 @@ class C19(Config):
               "Local Open Scope N_scope.\nLocal Open Scope uint63_scope.")
     bin = "c19"
     release_too = True
-    n_tags = 18
+    n_tags = 17
     classes = {}
     shard_size = 150
     rule = ("equihash::is_valid_solution on: solutions found by an independent Wagner solver in the harness for "
